@@ -275,7 +275,16 @@ func (g *Gen) fill(v reflect.Value, depth int) {
 }
 
 // ErrPool holds the distinct error values used for error-typed positions.
-var ErrPool = []error{errors.New("err0"), errors.New("err1"), errors.New("err2"), errors.New("err3"), errors.New("err4")}
+var ErrPool = []error{errors.New("err0"), valueErr{1}, &pointerErr{"err2"}, errors.New("err3"), valueErr{4}}
+
+// errors of different concrete types: == comparable, pairwise distinct
+type valueErr struct{ N int }
+
+func (e valueErr) Error() string { return "value error" }
+
+type pointerErr struct{ S string }
+
+func (e *pointerErr) Error() string { return e.S }
 
 // AnyPtr is a pointer used as a dynamic value of interface{} positions.
 var AnyPtr = new(int)
